@@ -221,6 +221,7 @@ func RunPath(mainpkg *ssa.Package, sizes types.Sizes, entry string, prefix []Dec
 	Sched = newSched(Cfg.Sched)
 	syncStates = map[*value]interface{}{}
 	gorAbort, crashedInGor, deadlockPending = nil, false, false
+	recvSeq = 0
 	resetModels()
 	q0, t0 := S.Queries, S.Time
 	S.BeginPath()
